@@ -19,6 +19,9 @@ CLAIMS = {
     'C07': dict(
         text="Decides the structural half of random access by a potential-function argument: on every success path of RangeEncoder::encode_symbol (words written, loop-summarised) + (change of held-back count) equals the number of one-word window shifts; Pos::pos returns backend position + held-back words; the decoder reads one word per shift under the same renormalisation predicate; RangeDecoder::seek = backend seek, re-read of the window with the constructors' routine, state restore, with both errors propagated; seek(pos()) is symbolically the identity for AnsCoder and ChainCoder; backend seek accepts exactly p<=len; snapshots take &self. Not decided: that decoding after a seek yields the right symbols; maybe_exhausted at the final position.",
         tech="loop-summarised effect counting against a potential function; symbolic seek(pos()) round trip; dominance/ordering of the seek protocol; difference bounds for backend seek"),
+    'C09': dict(
+        text="Decides the structural core for all models, symbols and histories: in every encoder-side model (6 impls + Huffman) the predicates that separate rejecting from accepting paths mention the symbol outside any possibly-narrowing conversion (or under a dominating guard on the un-narrowed symbol); in each of the three Encode::encode_symbol impls the Continue edge of the model-lookup `?` precedes the first mutation of the coder on every path and every rejecting exit is mutation-free; ANS: no assignment to the coder precedes the fallible backend write; Huffman rejects before emitting and the default adaptors buffer first. Not decided: that each model's None set equals the complement of its support (value level).",
+        tech="information-flow (narrowing taint) over the value graph + path ordering / must-precede rules over extracted MIR"),
 }
 
 NA = {
